@@ -10,6 +10,7 @@ CONSTANTS
   Filter = FALSE
   ValueEq = TRUE
   SoloTries = 0
+  SplitPC = FALSE
 INIT Init
 NEXT Next
 VIEW view
